@@ -4,17 +4,28 @@ type-string parser never crashes or reads outside its input.
 Engine E1 (bounded exhaustive enumeration), two halves.
 
 Python side (cparser.py / api.py):
-  * FFI.typeof(): every sequence of <= 3 (thorough 4) tokens over a 51-token
+  * FFI.typeof(): every sequence of <= 3 (thorough 4) tokens over a 53-token
     alphabet, plus every sequence of <= 2 (thorough 3) tokens inside the frames
     `int [ ... ]` and `void ( ... )`;
   * FFI.cdef(): every single-slot deletion / substitution / insertion of every
     token of the shared 47-cdef corpus, and every token sequence inside
     `struct fs { ... };`, `enum fe { ... };`, `#define FX ...`, `int fa[ ... ];`
-    (thorough: length <= 3 over the 51 tokens; quick: length <= 2 over the 51
+    (thorough: length <= 3 over the 53 tokens; quick: length <= 2 over the 53
     tokens and length 3 over the 28 tokens that can occur in a field list or a
     constant expression);
   * a few structured families outside the token space: one token repeated
-    600/1300/6000 times, array lengths around every integer limit.
+    600/1300/6000 times, array lengths around every integer limit;
+  * the families of _c30x.py (added after the audit round, all of them finite
+    products executed completely): constructs that pycparser returns as a node
+    that is not a declaration (#pragma, _Pragma, _Static_assert) at every token
+    gap of the corpus and in sequences inside struct / union / enum / argument
+    frames; magnitudes (literals in the four bases, every binary operator and
+    growing chains around 63/64 bits, the constant folder's 1024-bit bound and
+    the 4300-digit limit of int()/str()) in every place a constant expression
+    can stand; every C operator over every literal spelling; specifier and
+    common-type keywords; 89 further tokens at the slots of the corpus;
+    characters outside printable ASCII; cdef() on an FFI that is not fresh
+    (after the same declarations, after a failed cdef(), override, packed).
   Oracle: the call returns or raises an exception whose type the statement
   allows.  Every escaping exception is classified by (type, innermost frame in
   the cffi package[, raising frame inside pycparser]).
@@ -32,7 +43,20 @@ C side (parse_c_type.c / ffi_obj.c / realize_c_type.c):
     surrogate, lengths around 500 / 1000 / 1200, array lengths around every
     integer limit) go through typeof() of a compiled (out-of-line) FFI in
     crash-contained workers; thorough repeats this with the ASan+UBSan build
-    of _cffi_backend preloaded into the interpreter.
+    of _cffi_backend preloaded into the interpreter;
+  * (audit round) a second alphabet of 30 symbols with the keywords the first
+    one cannot spell (signed volatile _Bool bool __cdecl, three standard names)
+    to length 4 (thorough 5), and ~245 000 explicit strings: the 36 standard
+    names of search_standard_typename, the common-type names and the 18
+    keywords with every one-character deletion / substitution / insertion,
+    alone (the name ends the exactly-sized block) and followed / preceded by
+    another token;
+  * (audit round) compiled FFIs that are NOT fresh: every block of realised
+    strings three times on one shared FFI (forward, reversed, forward), all
+    ordered pairs of ~90 short strings (a, b, a on one FFI), and ~6700 strings
+    on an API-mode module compiled with gcc whose C constants agree / disagree
+    with the cdef (getter answers 0, 1, 2, 3); the oracle is the contract per
+    call; whether the answer equals the one of a fresh FFI is counted.
 """
 import collections
 import ctypes
@@ -49,6 +73,7 @@ import traceback
 from .. import build, pool
 from ..build import InfraError
 from ._corpus import CORPUS, tokenize
+from . import _c30x
 
 ID = "C30"
 LEVEL = "exploration"
@@ -56,15 +81,25 @@ META = dict(
     engine="E1-enum", level="exploration",
     technique="bounded exhaustive enumeration of token sequences (Python parser) and of byte-class sequences (C parser "
               "under ASan/UBSan with exactly-sized buffers), exception-type contract as oracle",
-    text="Every sequence of <=3 (thorough 4) tokens over a 51-token C/cffi alphabet through FFI.typeof(); every "
+    text="Every sequence of <=3 (thorough 4) tokens over a 53-token C/cffi alphabet through FFI.typeof(); every "
          "single-token substitution, insertion and deletion of the 47-cdef corpus and every sequence of <=3 tokens inside "
-         "struct/enum/#define/array-length frames through FFI.cdef() (quick: length 3 over 28 of the 51 tokens): the "
-         "call must return or raise CDefError, FFIError, NotImplementedError, VerificationError or VerificationMissing.  "
-         "Every sequence of <=5 (thorough 6) symbols over 36 byte classes/keywords, and of <=3 bytes over all 255 byte "
-         "values, through the tree's parse_c_type.c compiled stand-alone with ASan+UBSan, input and output arrays in "
-         "exactly-sized heap blocks (output bound straddled for every string); every string of <=3 (thorough 4) symbols "
-         "and every accepted string of <=4 (thorough 5) is realised by a compiled FFI's typeof() in crash-contained "
-         "workers: ctype, ffi.error, TypeError or ValueError, never a dead process.",
+         "struct/enum/#define/array-length frames through FFI.cdef() (quick: length 3 over 28 of the 53 tokens); plus "
+         "enumerated families for what that alphabet cannot spell: #pragma / _Pragma / _Static_assert at every token gap "
+         "of the corpus and inside aggregate frames, constant expressions around 64 bits, 1024 bits and 4300 digits "
+         "(literals in four bases, every binary operator, growing products / sums / shifts) in every place a constant "
+         "can stand, every C operator over every literal spelling, specifier and common-type keywords, 89 further tokens "
+         "at the corpus slots, non-ASCII / control characters, and cdef() on an FFI that already holds declarations or "
+         "a failed cdef() (override, packed): the call must return or raise CDefError, FFIError, NotImplementedError, "
+         "VerificationError or VerificationMissing.  "
+         "Every sequence of <=5 (thorough 6) symbols over 36 byte classes/keywords, of <=4 (5) over a second 30-symbol "
+         "keyword alphabet, of <=3 bytes over all 255 byte values, and ~245000 one-character edits of every standard "
+         "type name and keyword, through the tree's parse_c_type.c compiled stand-alone with ASan+UBSan, input and "
+         "output arrays in exactly-sized heap blocks (output bound straddled for every string); every string of <=3 "
+         "(thorough 4) symbols, every accepted string of <=4 (thorough 5) and every edited name is realised by a "
+         "compiled FFI's typeof() in crash-contained workers, on a fresh FFI and again on shared ones (blocks forward / "
+         "reversed, all ordered pairs of ~90 short strings, an API-mode module whose C constants disagree with the "
+         "cdef): ctype, ffi.error, TypeError or ValueError, never a dead process.  Expected duration on the idle "
+         "16-core machine: quick about 20 s, thorough about 15 min.",
     note="allowed exception sets are copied from the statement; the stand-alone parser runs against a hand-written "
          "context (checked for consistency against the real backend on every realised string); ASan dedups reports per "
          "faulting PC, so one input per faulting instruction and process is recorded")
@@ -154,17 +189,28 @@ def classify(exc, st):
     return site, raised_in, extra
 
 
-def run_py_case(api, text, st=None):
-    """Execute one case on a fresh FFI.  Returns (outcome, excname, site, raised_in, extra)."""
+def run_py_case(api, text, st=None, plan=None):
+    """Execute one case on a fresh FFI.  Returns (outcome, excname, site, raised_in, extra).
+    plan = None or {"pre": [[text, opts], ...], "opts": {...}}: cdef() calls made first on the
+    same FFI (whatever they raise is the business of their own case) and the keyword options
+    of the measured call."""
     st = st or _py_init()
     from cffi import FFI
     f = FFI()
     f.include(st["base"])
+    opts = {}
+    if plan:
+        for ptext, popts in plan.get("pre", ()):
+            try:
+                f.cdef(ptext, **popts)
+            except Exception:
+                pass
+        opts = plan.get("opts", {})
     try:
         if api == "typeof":
             f.typeof(text)
         else:
-            f.cdef(text)
+            f.cdef(text, **opts)
         return ("ok", "", "", "", None)
     except st["allowed"] as e:
         site, raised_in, extra = classify(e, st)
@@ -180,6 +226,9 @@ def py_sig(excname, site, raised_in, extra):
         return {"kind": "escape", "site": "recursion_limit", "exc": excname}
     if site == "model.global_cache" and not raised_in:
         return {"kind": "escape", "site": "backend_new_type", "exc": excname}
+    if site == "model.finish_backend_type" and not raised_in:
+        # the backend's complete_struct_or_union() refusing the fields of an in-line struct/union
+        return {"kind": "escape", "site": "backend_complete_struct", "exc": excname}
     sig = {"kind": "escape", "site": site, "exc": excname}
     if raised_in:
         sig["raised_in"] = raised_in
@@ -209,24 +258,42 @@ def py_work(item):
             hist["%s:%s@%s" % (api, r[1], r[2])] += 1
         else:
             hist["%s:ESCAPE" % api] += 1
-            escapes.append((family, api, text, r[1], r[2], r[3], r[4]))
+            escapes.append((family, api, text, r[1], r[2], r[3], r[4], ""))
     return n, hist, escapes
 
 
+def family_group(family):
+    """'magnitude_expr_t_array' -> 'magnitude': the name under which a family is counted."""
+    for g in ("agg_gap", "agg_frame", "magnitude", "expr_ops", "spec_seq", "xtok", "nonascii", "state"):
+        if family.startswith(g):
+            return g
+    return None
+
+
 def mut_work(item):
-    """item = list of (family, api, text)."""
+    """item = list of (family, api, text) or (family, api, text, plan)."""
+    import json
     st = _py_init()
     hist = collections.Counter()
     escapes = []
-    for family, api, text in item:
-        r = run_py_case(api, text, st)
+    for case in item:
+        family, api, text = case[:3]
+        plan = case[3] if len(case) > 3 else None
+        r = run_py_case(api, text, st, plan)
+        g = family_group(family)
+        if g:
+            # the added families are also counted per family: executed / not a plain syntax error
+            hist["family:%s" % g] += 1
+            if not (r[0] == "allowed" and r[2] == "cparser.convert_pycparser_error"):
+                hist["family:%s:nontrivial" % g] += 1
         if r[0] == "ok":
             hist["%s:ok" % api] += 1
         elif r[0] == "allowed":
             hist["%s:%s@%s" % (api, r[1], r[2])] += 1
         else:
             hist["%s:ESCAPE" % api] += 1
-            escapes.append((family, api, text, r[1], r[2], r[3], r[4]))
+            escapes.append((family, api, text, r[1], r[2], r[3], r[4],
+                            json.dumps(plan, sort_keys=True) if plan else ""))
     return len(item), hist, escapes
 
 
@@ -306,6 +373,14 @@ SYMS = [b" ", b"\n", b"*", b"(", b")", b"[", b"]", b",", b".", b"0", b"3", b"9",
         b"int", b"char", b"long", b"short", b"unsigned", b"double", b"float", b"_Complex", b"void", b"const",
         b"struct", b"union", b"enum", b"__stdcall", b"...", b"FILE", b"size_t", b"9223372036854775808"]
 NSYM = len(SYMS)
+# second alphabet: the keywords and name tables that SYMS cannot spell (signed, volatile, _Bool,
+# __cdecl, the common type 'bool' that is parsed through a nested tokenizer, three standard
+# names of search_standard_typename) among the specifiers and declarator symbols they combine with
+SYMS2 = [b" ", b"*", b"(", b")", b"[", b"]", b",", b"0", b"x", b"t",
+         b"int", b"char", b"long", b"short", b"unsigned", b"const", b"double", b"float", b"_Complex", b"void",
+         b"__stdcall", b"struct",
+         b"signed", b"volatile", b"_Bool", b"bool", b"__cdecl", b"int8_t", b"wchar_t", b"uint_least16_t"]
+assert len(SYMS2) == len(set(SYMS2))
 # the same symbols as Python str for the real backend (a lone 0xE9 byte is not valid UTF-8:
 # the str version is U+00E9, two high bytes; both versions are rejected by the tokenizer)
 SYMS_STR = [s.decode("latin-1") for s in SYMS]
@@ -354,7 +429,9 @@ def _syms_header():
     def cstr(b):
         return '"' + "".join("\\x%02x" % c for c in b) + '"'
     return ("#define NSYM %d\nstatic const char *const SYM[NSYM] = {%s};\nstatic const int SYMLEN[NSYM] = {%s};\n"
-            % (NSYM, ", ".join(cstr(s) for s in SYMS), ", ".join(str(len(s)) for s in SYMS)))
+            % (NSYM, ", ".join(cstr(s) for s in SYMS), ", ".join(str(len(s)) for s in SYMS)) +
+            "#define NSYM2 %d\nstatic const char *const SYM2[NSYM2] = {%s};\nstatic const int SYM2LEN[NSYM2] = {%s};\n"
+            % (len(SYMS2), ", ".join(cstr(s) for s in SYMS2), ", ".join(str(len(s)) for s in SYMS2)))
 
 
 def build_harness():
@@ -402,14 +479,51 @@ _r_marker = re.compile(r"^C30-(ASAN|UBSAN)-INPUT phase=(\d+) seq=([\d,]*)$", re.
 
 MODES = {
     "sym": SYMS,
+    "sym2": SYMS2,
     "bytes": [bytes([c]) for c in range(1, 256)],
     "ascii": [bytes([c]) for c in range(1, 256) if c in (9, 10) or 0x20 <= c <= 0x7e],
 }
 
 
+_list_strings = []       # mode "list": the explicit strings given to the harness (set by run())
+
+
+def list_index(seq):
+    return (seq[0] << 24) | (seq[1] << 16) | (seq[2] << 8) | seq[3]
+
+
 def seq_bytes(seq, mode="sym"):
+    if mode == "list":
+        return _list_strings[list_index(seq)]
     tab = MODES[mode]
     return b"".join(tab[i] for i in seq)
+
+
+def standard_names():
+    """The names of search_standard_typename() and of commontypes.c, read from the tree's source."""
+    with open(os.path.join(build.REPO, "src/c/parse_c_type.c")) as f:
+        src = f.read()
+    m = re.search(r"int search_standard_typename\(.*?\n}\n", src, re.S)
+    if not m:
+        raise InfraError("search_standard_typename not found in parse_c_type.c")
+    names = [lit + "_t" for lit, n in re.findall(r'size == \d+ && !memcmp\(p, "(\w+)",\s*(\d+)\)', m.group(0))
+             if len(lit) == int(n)]
+    if len(names) < 30:
+        raise InfraError("only %d standard names found in parse_c_type.c" % len(names))
+    with open(os.path.join(build.REPO, "src/c/commontypes.c")) as f:
+        common = re.findall(r'EQ\("(\w+)"', f.read())
+    # on this platform only the entries outside '#ifdef MS_WIN32' exist; the others are ordinary
+    # unknown identifiers (kept: they are short and cost nothing)
+    return sorted(set(names)), sorted(set(common))
+
+
+def write_list_file(path, strings):
+    with open(path, "wb") as f:
+        f.write(len(strings).to_bytes(4, "big"))
+        for b in strings:
+            if b"\0" in b or len(b) > MAXL * 16:
+                raise InfraError("bad list string %r" % (b,))
+            f.write(len(b).to_bytes(2, "big") + b)
 
 
 def seq_str(seq, mode="sym"):
@@ -467,7 +581,7 @@ def san_sig(rep):
     return {"kind": "sanitizer", "tool": "ubsan", "error": rep["error"], "func": rep["func"]}
 
 
-def run_harness_jobs(ctx, exe, maxlen, accmax, njobs, workdir, mode="sym"):
+def run_harness_jobs(ctx, exe, maxlen, accmax, njobs, workdir, mode="sym", modearg=None):
     """Run the njobs shares of the enumeration concurrently; resume after fatal signals.
     Returns (list of _Stats, accepted list per length, sanitizer reports, crashes)."""
     procs = {}
@@ -480,7 +594,8 @@ def run_harness_jobs(ctx, exe, maxlen, accmax, njobs, workdir, mode="sym"):
 
     def start(j, resume):
         st, acc, err = files[j]
-        cmd = [exe, str(maxlen), str(accmax), str(j), str(njobs), st, acc, mode] + (["resume"] if resume else [])
+        cmd = [exe, str(maxlen), str(accmax), str(j), str(njobs), st, acc, modearg or mode] + (
+            ["resume"] if resume else [])
         ef = open(err, "ab")
         procs[j] = (subprocess.Popen(cmd, stdout=subprocess.DEVNULL, stderr=ef, env=env), ef)
 
@@ -576,8 +691,14 @@ def fresh_compiled_ffi():
 
 def realise_one(s):
     """typeof(s) on a fresh compiled FFI -> (class, exception name, is_parse_error)."""
-    ffi = fresh_compiled_ffi()
-    ctype_cls = type(ffi.typeof("int"))
+    return realise_on(fresh_compiled_ffi(), s)
+
+
+def realise_on(ffi, s):
+    """typeof(s) on the given compiled FFI -> (class, exception name, is_parse_error)."""
+    ctype_cls = _ool.get("ctype_cls")
+    if ctype_cls is None:
+        ctype_cls = _ool["ctype_cls"] = type(fresh_compiled_ffi().typeof("int"))
     try:
         r = ffi.typeof(s)
     except ffi.error as e:
@@ -594,12 +715,17 @@ def realise_one(s):
 
 
 def realise_work(item):
-    """item = list of (string, harness_verdict) with verdict in {'acc', 'rej', None}."""
+    """item = list of (string, harness_verdict) with verdict in {'acc', 'rej', None}.  Every
+    string on a fresh compiled FFI; then (blocks of more than one string) the whole block on ONE
+    further FFI: forward, reversed, forward again (see seq_work for the oracle)."""
     hist = collections.Counter()
     bad = []
     incons = []
+    badseq = []
+    fresh = {}
     for s, verdict in item:
         cls, exc, is_parse = realise_one(s)
+        fresh[s] = (cls, exc)
         hist["compiled:%s%s" % (cls, (":" + exc) if cls in ("type_or_value", "escape") else "")] += 1
         if cls == "escape":
             bad.append((s, exc))
@@ -609,7 +735,188 @@ def realise_work(item):
             incons.append((s, "harness accepts, backend reports a parse error"))
         if verdict == "rej" and cls != "ffi.error":
             incons.append((s, "harness rejects, backend answers %s" % cls))
-    return len(item), hist, bad, incons
+    ncalls = 0
+    if len(item) > 1:
+        calls = seq_calls("shared", [s for s, _ in item])
+        shared = fresh_compiled_ffi()
+        for i, s in enumerate(calls):
+            cls, exc = realise_on(shared, s)[:2]
+            ncalls += 1
+            hist["compiled_shared:%s%s" % (cls, (":" + exc) if cls in ("type_or_value", "escape") else "")] += 1
+            if cls == "escape" and fresh[s][0] != "escape":
+                # (an escape that the fresh FFI shows too is reported once, by the fresh case)
+                badseq.append(("shared", calls[:i + 1], exc))
+            if fresh[s] != (cls, exc):
+                hist["compiled_shared:answer_differs_from_fresh_ffi"] += 1
+    return len(item) + ncalls, hist, bad, incons, badseq
+
+
+# ---------------------------------------------------------------------------
+# a compiled FFI that is not fresh: state carried from one typeof() to the next (the cache
+# keyed by the string, the ctypes written back into ctx.types[] by realize_c_type.c), and
+# an API-mode module (static tables sorted by the C compiler, generated constant getters
+# that can answer "disagreement")
+
+API_CDEF = """
+typedef int t; typedef int tt(int);
+struct t { int fa; }; union tt { int fa; char fx; }; struct ta;
+enum et { x = 2 }; enum ett { xx = -1 };
+#define a 0
+#define a0 0x8000000000000000
+int a3(int);
+#define aa 3
+#define ax -1
+#define a_ 7
+typedef struct { int q; } x0;
+typedef struct { int q; ...; } x3;
+enum em { xm = 4 };
+"""
+API_SRC = """
+typedef int t; typedef int tt(int);
+struct t { int fa; }; union tt { int fa; char fx; }; struct ta;
+enum et { x = 2 }; enum ett { xx = -1 };
+#define a 0
+#define a0 0x8000000000000000ULL
+static int a3(int v) { return v; }
+#define aa 5          /* the cdef says 3: the generated getter reports the disagreement */
+#define ax 0          /* the cdef says -1 */
+#define a_ (-7)       /* the cdef says 7 */
+typedef struct { int q; } x0;
+typedef struct { char c; int q; } x3;
+enum em { xm = 6 };   /* the cdef says 4 */
+"""
+_api = {}
+
+
+def build_api_module():
+    """Compile (gcc, cached by content) the API-mode module; returns the path of the .so."""
+    h = hashlib.sha256()
+    h.update(build.source_hash().encode())
+    for fn in ("recompiler.py", "cffi_opcode.py", "model.py", "cparser.py"):
+        with open(os.path.join(build.REPO, "src/cffi", fn), "rb") as f:
+            h.update(f.read())
+    h.update((API_CDEF + "\0" + API_SRC + "\0" + sys.version).encode())
+    d = os.path.join(build.CACHE, "c30api-%s" % h.hexdigest()[:20])
+    so = os.path.join(d, "c30_api" + build.EXT_SUFFIX)
+    if os.path.exists(so):
+        return so
+    import warnings
+    warnings.simplefilter("ignore")
+    from cffi import FFI
+    tmpd = d + ".tmp%d" % os.getpid()
+    shutil.rmtree(tmpd, ignore_errors=True)
+    os.makedirs(tmpd)
+    f = FFI()
+    f.cdef(API_CDEF)
+    f.set_source("c30_api", API_SRC)
+    try:
+        out = f.compile(tmpdir=tmpd)
+    except Exception as e:
+        shutil.rmtree(tmpd, ignore_errors=True)
+        raise InfraError("cannot build the API-mode module: %s: %s" % (type(e).__name__, e))
+    if os.path.basename(out) != os.path.basename(so):
+        shutil.move(out, os.path.join(tmpd, os.path.basename(so)))
+    try:
+        os.rename(tmpd, d)
+    except OSError:
+        shutil.rmtree(tmpd, ignore_errors=True)
+    ents = sorted((os.path.join(build.CACHE, x) for x in os.listdir(build.CACHE) if x.startswith("c30api-")
+                   and ".tmp" not in x), key=os.path.getmtime)
+    for old in ents[:-4]:
+        shutil.rmtree(old, ignore_errors=True)
+    if not os.path.exists(so):
+        raise InfraError("API-mode module not found after the build: %s" % so)
+    return so
+
+
+def api_ffi():
+    """The FFI of the API-mode module (one per process: it cannot be re-created)."""
+    if "ffi" not in _api:
+        import importlib.util
+        spec = importlib.util.spec_from_file_location(
+            "c30_api", _api.get("so") or os.environ.get("C30_API_SO") or build_api_module())
+        mod = importlib.util.module_from_spec(spec)
+        spec.loader.exec_module(mod)
+        _api["ffi"] = mod.ffi
+    return _api["ffi"]
+
+
+def seq_calls(kind, strings):
+    """The order of the typeof() calls of one item."""
+    strings = list(strings)
+    if kind == "shared":
+        return strings + strings[::-1] + strings      # forward, reversed, forward again
+    if kind == "pair":
+        return [strings[0], strings[1], strings[0]]
+    if kind == "api":
+        return strings + strings[::-1]
+    raise InfraError("unknown sequence kind %r" % (kind,))
+
+
+def run_calls(kind, calls):
+    """Execute the calls on ONE compiled FFI (shared / pair: a fresh out-of-line FFI; api: the
+    process's API-mode FFI).  Returns the list of (class, exception name) per call."""
+    ffi = api_ffi() if kind == "api" else fresh_compiled_ffi()
+    return [realise_on(ffi, s)[:2] for s in calls]
+
+
+def seq_work(item):
+    """item = (kind, strings).  Oracle per call: the contract of the statement (ctype, ffi.error,
+    TypeError / ValueError).  Whether the answer is the one a FRESH FFI gives is counted, not
+    judged (the statement does not promise it).  Returns (ncalls, hist, bad) with
+    bad = [(kind, calls up to and including the escaping one, exception name)]."""
+    kind, strings = item
+    calls = seq_calls(kind, strings)
+    res = run_calls(kind, calls)
+    hist = collections.Counter()
+    bad = []
+    first = {}
+    cache = _ool.setdefault("fresh_cache", {})      # (the answer of a fresh FFI is a function of the string)
+    for i, (s, (cls, exc)) in enumerate(zip(calls, res)):
+        hist["compiled_%s:%s%s" % (kind, cls, (":" + exc) if cls in ("type_or_value", "escape") else "")] += 1
+        if kind == "api":
+            ref = first.setdefault(s, (cls, exc))           # no fresh API-mode FFI exists: first answer
+            if cls == "escape" and s not in [c[1][-1] for c in bad]:
+                bad.append((kind, calls[:i + 1], exc))
+        else:
+            if s not in cache:
+                cache[s] = realise_one(s)[:2]
+            ref = cache[s]
+            if cls == "escape" and ref[0] != "escape":
+                # (an escape that the fresh FFI shows too is reported once, by the fresh case)
+                bad.append((kind, calls[:i + 1], exc))
+        if ref != (cls, exc):
+            hist["compiled_%s:answer_differs_from_%s" % (kind, "first_call" if kind == "api" else "fresh_ffi")] += 1
+    return len(calls), hist, bad
+
+
+PAIR_EXTRA = ["tt[2]", "struct ta[2]", "void[2]", "t[a0]", "t[ax]", "t[a3]", "t[zz]", "int(int)[2]", "struct t[2]",
+              "union tt*", "enum t", "enum tt[x]", "t[x]", "t[xx]", "tt*", "tt(*)[a]", "int(tt)", "int(struct ta)",
+              "struct ta(void)", "t(*)(t, ...)", "FILE*", "size_t[aa]", "_Bool[a]", "t[", "zz", "struct zz*", ""]
+
+API_NAMES = ["a", "a0", "a3", "a_", "aa", "ax", "x", "xx", "xm", "x0", "x3", "zz", "et"]
+API_ELEMS = ["int", "t", "char", "struct t", "t*", "tt", "void", "x0", "x3", "enum et", "enum ett", "enum em", "union tt"]
+API_FORMS = ["%s[%s]", "%s[%s][2]", "%s(*)[%s]", "%s[%s", "%s[ %s ]*", "%s[2][%s]", "%s(%s)", "%s(*)(%s[%s])"]
+
+
+def api_strings():
+    out = ["x0", "x3", "x0*", "x3[2]", "struct $1", "struct $x0", "$x0", "enum et", "enum ett", "enum et[x]", "et", "a3",
+           "struct t", "union tt", "struct ta", "struct ta*", "t", "tt", "tt*", "FILE", "bool", "a", "struct x0"]
+    for c in API_NAMES:
+        for el in API_ELEMS:
+            for form in API_FORMS:
+                out.append(form % ((el, c) if form.count("%s") == 2 else (el, el, c)))
+    return out
+
+
+def realise_item(it):
+    """A string (fresh FFI) or [kind, strings] (one FFI for the whole sequence) -> (class, exc)."""
+    if isinstance(it, str):
+        return realise_one(it)[:2]
+    kind, strings = it
+    res = run_calls(kind, seq_calls(kind, strings))
+    esc = [exc for cls, exc in res if cls == "escape"]
+    return ("seq_%s_escape" % kind, esc[0]) if esc else ("seq_%s_ok" % kind, "")
 
 
 def compiled_extra_strings():
@@ -660,7 +967,7 @@ out = open(sys.argv[3], "a")
 jr = open(sys.argv[4], "r+b")
 for i in range(start, len(items)):
     jr.seek(0); jr.write(b"%%12d" %% i); jr.flush()
-    r = c30.realise_one(items[i])
+    r = c30.realise_item(items[i])
     out.write("%%d %%s %%s\n" %% (i, r[0], r[1]))
 out.close()
 jr.seek(0); jr.write(b"%%12d" %% -1); jr.flush()
@@ -725,7 +1032,8 @@ def realise_under_asan(ctx, strings, workdir):
                 raise InfraError("asan realisation child %d died outside a case (rc=%r)" % (k, rc))
             with open(os.path.join(workdir, "asan_err%02d" % k), "rb") as f:
                 err = f.read().decode("latin-1")
-            deaths.append({"string": shares[k][cur], "rc": rc,
+            deaths.append({"string": shares[k][cur] if isinstance(shares[k][cur], str) else shares[k][cur][1][0],
+                           "item": shares[k][cur], "rc": rc,
                            "report": err if len(err) < 4000 else err[:1500] + "\n[...]\n" + err[-2500:]})
             ent[2] += 1
             if ent[2] > 20:
@@ -781,9 +1089,18 @@ def run(ctx):
     # "--opt phases=c,real,py" restricts a run to some phases (used while demonstrating
     # detection; the evidence then says so and is not marked exhaustive)
     phases = set(getattr(ctx, "opts", {}).get("phases", "c,real,py").split(","))
-    passes = [("sym", maxlen, accmax), ("bytes", 3, 3)]
+    # sym2: the keyword alphabet (30 symbols), one symbol shorter than the main pass
+    passes = [("sym", maxlen, accmax), ("sym2", maxlen - 1, accmax), ("bytes", 3, 3)]
     if not quick:
         passes.append(("ascii", 4, 4))
+    # explicit strings: every standard / common type name and keyword with every one-character edit
+    std_names, common_names = standard_names()
+    global _list_strings
+    list_cases = _c30x.name_edits(std_names + common_names)
+    _list_strings = [b.encode("ascii") for b, _ in list_cases]
+    listfile = os.path.join(workdir, "list-in")
+    write_list_file(listfile, _list_strings)
+    passes.append(("list", 4, 4))
     if "c" not in phases:
         passes = []
     c_eval = c_parses = 0
@@ -791,18 +1108,46 @@ def run(ctx):
     msgs = collections.Counter()
     nrep = ncrash = 0
     accepted_by_mode = {}
-    for mode, mlen, amax in passes:
+    # the main pass alone on all the cores, then the small passes side by side (most of their
+    # time is the start of 16 sanitizer processes)
+    import threading
+    pass_results = {}
+
+    def run_pass(mode, mlen, amax):
         tp = time.time()
-        stats, accepted, reports, crashes = run_harness_jobs(ctx, exe, mlen, amax, pool.NPROC, workdir, mode)
-        nsym = len(MODES[mode])
+        try:
+            njobs = pool.NPROC if mode in ("sym", "bytes", "ascii") else max(1, pool.NPROC // 4)
+            pass_results[mode] = run_harness_jobs(ctx, exe, mlen, amax, njobs, workdir, mode,
+                                                  "list:" + listfile if mode == "list" else None) + (
+                                                      time.time() - tp,)
+        except BaseException as e:
+            pass_results[mode] = e
+    for mode, mlen, amax in passes[:1]:
+        run_pass(mode, mlen, amax)
+    threads = [threading.Thread(target=run_pass, args=p_) for p_ in passes[1:]]
+    for th in threads:
+        th.start()
+    for th in threads:
+        th.join()
+    for mode, mlen, amax in passes:
+        if isinstance(pass_results[mode], BaseException):
+            raise pass_results[mode]
+        stats, accepted, reports, crashes, dt_pass = pass_results[mode]
+        tp = time.time() - dt_pass
+        nsym = len(MODES[mode]) if mode != "list" else len(_list_strings)
         ev = sum(s.evaluated for s in stats)
-        expected = sum(nsym ** L for L in range(1, mlen + 1))
+        expected = sum(nsym ** L for L in range(1, mlen + 1)) if mode != "list" else nsym
         if ev != expected and not crashes:
             raise InfraError("harness (%s) evaluated %d strings, expected %d" % (mode, ev, expected))
         c_eval += ev
         c_parses += sum(s.parses for s in stats)
         acc_per_len = [sum(s.accepted[L] for s in stats) for L in range(MAXL + 1)]
+        if mode == "list":
+            acc_per_len = [0, acc_per_len[4], 0, 0, 0]      # (one class: explicit strings)
+            mlen = 1
         accepted_by_mode[mode] = set(accepted)
+        ctx.count("cparse_strings:" + mode, ev)
+        ctx.count("cparse_accepted:" + mode, sum(acc_per_len))
         for s in stats:
             for i in range(s.nmsg):
                 msgs[s.msg[i].value.decode("latin-1")] += s.msgcount[i]
@@ -815,6 +1160,10 @@ def run(ctx):
         ctx.log("C side [%s]: %d strings over %d symbols, length <= %d, in %.1fs; accepted %s, %d sanitizer reports, "
                 "%d fatal signals" % (mode, ev, nsym, mlen, time.time() - tp, acc_per_len[1:mlen + 1], len(reports),
                                       len(crashes)))
+        if mode == "list":
+            c_side_cov[mode]["what"] = ("%d standard names, %d common-type names and %d keywords with every "
+                                        "one-character edit, alone / followed by '*' or '[3]' / after 'const '" % (
+                                            len(std_names), len(common_names), len(_c30x.C_KEYWORDS)))
         nrep += len(reports)
         ncrash += len(crashes)
         for s in stats:
@@ -857,29 +1206,57 @@ def run(ctx):
         if len(seq) > rall:
             cases.append((seq_str(seq), "acc"))
     have = set(c[0] for c in cases)
+
+    def add_case(text, verdict):
+        if text not in have:
+            have.add(text)
+            cases.append((text, verdict))
+    # the keyword alphabet: every string of <= 2 (thorough 3) symbols, accepted or not
+    acc2 = accepted_by_mode.get("sym2", set())
+    for L in range(1, rall if "real" in phases and "c" in phases else 1):
+        for seq in itertools.product(range(len(SYMS2)), repeat=L):
+            add_case(seq_str(seq, "sym2"), "acc" if seq in acc2 else "rej")
+    # the explicit strings: the unedited names (accepted or not) and, below, every accepted edit
+    accl = set(list_index(q) for q in accepted_by_mode.get("list", ()))
+    if "real" in phases and "c" in phases:
+        plain_names = set(std_names + common_names + _c30x.C_KEYWORDS)
+        for k, (text, plain) in enumerate(list_cases):
+            if text in plain_names or (plain and not quick):
+                add_case(text, "acc" if k in accl else "rej")
     for mode in sorted(accepted_by_mode):
         if mode != "sym":
             for seq in sorted(accepted_by_mode[mode], key=lambda s: (len(s), s)):
                 b = seq_bytes(seq, mode)
-                if max(b) < 0x80 and b.decode("ascii") not in have:
-                    have.add(b.decode("ascii"))
-                    cases.append((b.decode("ascii"), "acc"))
+                if max(b) < 0x80:
+                    add_case(b.decode("ascii"), "acc")
     extra = compiled_extra_strings() if "real" in phases else []
     # one item per block of enumerated strings; the extra strings are one item each (some
     # of them kill the process: the pool then attributes the death to exactly that string)
     blocks = [[cases[i::256]] for i in range(256) if cases[i::256]]
     blocks += [[[(s, None)] for s in extra[i:i + 16]] for i in range(0, len(extra), 16)]
+    nenum = len(cases)
     cases.extend((s, None) for s in extra)
     nreal = 0
     suspects = []
+    crashed_blocks = []
     comp_bad = []
+    seq_bad = []
     extra_past_parser = []
+    single_deaths = set()
 
     def dead(s, r):
         ctx.count("compiled:CRASH")
+        single_deaths.add(s)
         sig = {"kind": "crash", "where": "compiled_typeof"}
         note_root(sig, s, "compiled typeof", "realise")
         ctx.violation(sig, {"side": "compiled", "string": s, "how": r.describe(), "confirmed": r.confirmed})
+
+    def dead_seq(kind, strings, r):
+        ctx.count("compiled_%s:CRASH" % kind)
+        sig = {"kind": "crash", "where": "compiled_typeof", "ffi": kind}
+        note_root(sig, strings[0] if strings else "", "compiled typeof (%s FFI)" % kind, "realise_" + kind)
+        ctx.violation(sig, {"side": "compiled_seq", "kind": kind, "strings": list(strings), "how": r.describe(),
+                            "confirmed": r.confirmed})
 
     for blk, r in pool.pmap(realise_work, blocks):
         if isinstance(r, pool.WorkerError):
@@ -890,8 +1267,9 @@ def run(ctx):
                 nreal += 1
             else:
                 suspects.extend(blk)
+                crashed_blocks.append((blk, r))
             continue
-        n, hist, bad, incons = r
+        n, hist, bad, incons, badseq = r
         nreal += n
         for k, v in hist.items():
             if isinstance(k, tuple):
@@ -901,6 +1279,7 @@ def run(ctx):
         if incons:
             raise InfraError("stand-alone parser and backend disagree (harness context mismatch?): %r" % (incons[:3],))
         comp_bad.extend(bad)
+        seq_bad.extend(badseq)
     if suspects:
         # a worker died inside a block: run that block's strings one per item
         for it, r in pool.pmap(realise_work, [[[c] for c in suspects[i:i + 16]] for i in range(0, len(suspects), 16)]):
@@ -910,7 +1289,7 @@ def run(ctx):
                 dead(it[0][0], r)
                 nreal += 1
                 continue
-            n, hist, bad, incons = r
+            n, hist, bad, incons, badseq = r
             nreal += n
             for k, v in hist.items():
                 if not isinstance(k, tuple):
@@ -918,13 +1297,63 @@ def run(ctx):
             if incons:
                 raise InfraError("stand-alone parser and backend disagree: %r" % (incons[:3],))
             comp_bad.extend(bad)
+        for blk, r in crashed_blocks:
+            if not any(c[0] in single_deaths for c in blk):
+                # no string of the block kills a fresh FFI: the death needs the shared one
+                dead_seq("shared", [c[0] for c in blk], r)
     comp_bad.sort(key=lambda b: (b[1], len(b[0]), b[0]))
     for s, exc in comp_bad:
         sig = {"kind": "compiled_escape", "exc": exc}
         note_root(sig, s, "compiled typeof", "realise")
         ctx.violation(sig, {"side": "compiled", "string": s, "exc": exc})
-    ctx.log("realisation: %d strings (%d all<=%d, %d accepted longer, %d extra) in %.1fs" % (
-        nreal, nall, rall, len(cases) - nall - len(extra), len(extra), time.time() - t1))
+    ctx.count("compiled_shared:answer_differs_from_fresh_ffi", 0)
+    ctx.log("realisation: %d calls (%d all<=%d, %d further enumerated/accepted/edited names, %d extra; each block also "
+            "3 times on one shared FFI) in %.1fs" % (nreal, nall, rall, nenum - nall, len(extra), time.time() - t1))
+
+    # ---- a compiled FFI that is not fresh: extra strings shared, ordered pairs, API mode
+    t1b = time.time()
+    seq_items_ = []
+    if "real" in phases:
+        short_extra = [s for s in extra if len(s) <= 200]
+        seq_items_ += [("shared", short_extra[i::16]) for i in range(16) if short_extra[i::16]]
+        # (accepted strings of <= 2 symbols; quick: one per class of strings equal up to blanks)
+        pair_set = [seq_str(q) for q in sorted(accset, key=lambda q: (len(q), q)) if len(q) <= 2]
+        if quick:
+            pair_set = [q.strip() for q in pair_set]
+        pair_set = sorted(set(pair_set + PAIR_EXTRA), key=lambda q: (len(q), q))
+        seq_items_ += [("pair", (a, b)) for a in pair_set for b in pair_set]
+        npairs = len(pair_set) ** 2
+        _api["so"] = os.environ["C30_API_SO"] = build_api_module()
+        api_list = api_strings() + [seq_str(q) for L in (1, 2) for q in itertools.product(range(NSYM), repeat=L)]
+        api_list += [c[0] for c in cases[:nenum] if "[" in c[0]]
+        seen_ = set()
+        api_list = [x for x in api_list if not (x in seen_ or seen_.add(x))]
+        seq_items_ += [("api", api_list[i::32]) for i in range(32) if api_list[i::32]]
+        cov_seq = {"shared_extra_strings": len(short_extra), "ordered_pairs": npairs, "pair_alphabet": len(pair_set),
+                   "api_mode_strings": len(api_list)}
+    else:
+        cov_seq = {}
+    nseq = 0
+    for it, r in pool.pmap(seq_work, [seq_items_[i::64] for i in range(64) if seq_items_[i::64]]):
+        if isinstance(r, pool.WorkerError):
+            raise InfraError(r.tb)
+        if isinstance(r, pool.Crash):
+            dead_seq(it[0], list(it[1]), r)
+            continue
+        n, hist, bad = r
+        nseq += n
+        for k, v in hist.items():
+            ctx.count(k, v)
+        seq_bad.extend(bad)
+    nreal += nseq
+    seq_bad.sort(key=lambda b: (b[0], b[2], len(b[1]), b[1]))
+    for kind, calls, exc in seq_bad:
+        sig = {"kind": "compiled_escape", "exc": exc, "ffi": kind}
+        note_root(sig, calls[-1], "compiled typeof (%s FFI)" % kind, "realise_" + kind)
+        ctx.violation(sig, {"side": "compiled_seq", "kind": kind, "calls": list(calls), "exc": exc})
+    if seq_items_:
+        ctx.log("non-fresh compiled FFIs: %d calls (%s) in %.1fs" % (nseq, ", ".join(
+            "%s=%d" % kv for kv in sorted(cov_seq.items())), time.time() - t1b))
 
     asan_note = "not run in the quick tier"
     if not quick and "real" in phases:
@@ -934,6 +1363,14 @@ def run(ctx):
         acc_strings = [seq_str(q) for L in (1, 2) for q in itertools.product(range(NSYM), repeat=L)]
         acc_strings += [seq_str(q) for q in sorted(accset, key=lambda q: (len(q), q)) if len(q) > 2]
         acc_strings += sorted(extra_past_parser, key=lambda q: (len(q), q))
+        acc_strings += [seq_str(q, "sym2") for L in (1, 2) for q in itertools.product(range(len(SYMS2)), repeat=L)]
+        acc_strings += [c[0] for c in cases[nall:nenum] if c[1] == "acc" and c[0] not in set(acc_strings)]
+        seen_ = set()
+        acc_strings = [x for x in acc_strings if not (x in seen_ or seen_.add(x))]
+        # ... and the non-fresh FFIs: every pair / API-mode block, the accepted strings in shared blocks
+        acc_strings += [[k_, list(v_)] for k_, v_ in seq_items_]
+        short_acc = [x for x in acc_strings if isinstance(x, str) and len(x) <= 200]
+        acc_strings += [["shared", short_acc[i::512]] for i in range(512) if short_acc[i::512]]
         ok, res, deaths = realise_under_asan(ctx, acc_strings, workdir)
         if not ok:
             asan_note = "skipped: %s" % res
@@ -953,7 +1390,7 @@ def run(ctx):
                     re.sub(r"0x[0-9a-f]+|-?\d+", "N", u.group(1))[:60] if u else "death"),
                        "func": f0.group(1) if f0 else "?"}
                 note_root(sig, d["string"], "compiled typeof (asan)", "realise_asan")
-                ctx.violation(sig, {"side": "compiled_asan", "string": d["string"], "rc": d["rc"],
+                ctx.violation(sig, {"side": "compiled_asan", "string": d["string"], "item": d["item"], "rc": d["rc"],
                                     "report": d["report"]})
             ctx.log("asan realisation: %s in %.1fs" % (asan_note, time.time() - t2))
 
@@ -992,10 +1429,34 @@ def run(ctx):
     t4 = time.time()
     muts, ntok = corpus_mutants() if "py" in phases else ([], 0)
     if "py" in phases:
+        have_texts = set(m[2] for m in muts)
         muts += long_inputs()
         muts += [("array_boundaries", "typeof", s) for s in array_boundaries()]
+        # the families added after the audit round (see _c30x.py)
+        muts += _c30x.xtok_mutants(CORPUS, tokenize, quick, have_texts)
+        muts += _c30x.agg_frame(quick)
+        muts += _c30x.magnitude(quick)
+        muts += _c30x.expr_ops(quick)
+        muts += _c30x.spec_seq(quick)
+        muts += _c30x.nonascii(quick, TOKENS)
+        muts += _c30x.state_cases(CORPUS, tokenize, TOKENS, quick)
+        seen_ = set()
+        uniq_ = []
+        for m in muts:
+            key = (m[1], m[2], repr(m[3]) if len(m) > 3 and m[3] else "")
+            if key not in seen_:
+                seen_.add(key)
+                uniq_.append(m)
+        muts = uniq_
     nm = 0
-    for it, r in pool.pmap(mut_work, [[muts[i::96]] for i in range(96)]):
+    nblk = 96 if quick else 1024
+    # the deep inputs first, in 4 blocks of their own: each of them costs 0.1 - 1 s (several
+    # seconds when all the workers fault in deep stacks at the same time)
+    deep = [m for m in muts if len(m[2]) > 1000]
+    muts = [m for m in muts if len(m[2]) <= 1000]
+    mblocks = [[deep[i::4]] for i in range(4) if deep[i::4]] + [[muts[i::nblk]] for i in range(nblk)]
+    muts = deep + muts
+    for it, r in pool.pmap(mut_work, mblocks):
         if isinstance(r, pool.WorkerError):
             raise InfraError(r.tb)
         if isinstance(r, pool.Crash):
@@ -1012,18 +1473,26 @@ def run(ctx):
     # report: one minimal case per signature first, then the rest, in a canonical order
     import json
     bysig = collections.defaultdict(list)
-    for family, api, text, exc, site, raised_in, extra_ in escapes:
+    for family, api, text, exc, site, raised_in, extra_, plan in escapes:
         sig = py_sig(exc, site, raised_in, extra_)
         note_root(sig, text, api, family)
-        bysig[json.dumps(sig, sort_keys=True)].append((len(text), text, api, family, sig, extra_))
+        # (a case with a plan sorts after the same text without one: the minimal case of a
+        # signature is a single call on a fresh FFI whenever there is one)
+        bysig[json.dumps(sig, sort_keys=True)].append((len(text) + len(plan), text, api, family, plan, sig, extra_))
     rest = []
+
+    def py_detail(text, api, family, plan, extra_):
+        d = {"side": "py", "api": api, "text": text, "family": family, "backend_func": extra_}
+        if plan:
+            d["plan"] = json.loads(plan)
+        return d
     for key in sorted(bysig):
-        lst = sorted(bysig[key], key=lambda x: (x[0], x[1], x[2]))
-        L, text, api, family, sig, extra_ = lst[0]
-        ctx.violation(sig, {"side": "py", "api": api, "text": text, "family": family, "backend_func": extra_})
+        lst = sorted(bysig[key], key=lambda x: x[:5])
+        L, text, api, family, plan, sig, extra_ = lst[0]
+        ctx.violation(sig, py_detail(text, api, family, plan, extra_))
         rest.extend(lst[1:])
-    for L, text, api, family, sig, extra_ in rest:
-        ctx.violation(sig, {"side": "py", "api": api, "text": text, "family": family, "backend_func": extra_})
+    for L, text, api, family, plan, sig, extra_ in rest:
+        ctx.violation(sig, py_detail(text, api, family, plan, extra_))
 
     # ------------------------------------------------------------------ evidence
     nontrivial_py = sum(v for k, v in ctx.counts.items()
@@ -1033,20 +1502,36 @@ def run(ctx):
         ctx.sample({"accepted_by_parse_c_type": s})
     for family, api, text, *_ in escapes[:200:40]:
         ctx.sample({"api": api, "text": text, "family": family})
+    for fam_, api, text, *_ in [m for m in muts if family_group(m[0])][::4001][:12]:
+        ctx.sample({"api": api, "text": text if len(text) < 300 else text[:150] + "[...]" + text[-100:], "family": fam_})
     cov.update({
         "evaluations": py_n + nm + c_eval + nreal,
         "distinct_nontrivial": nontrivial_py + c_acc_total,
         "rule": "Python side: inputs whose outcome is not a converted pycparser syntax error (accepted, or an error raised "
                 "by cffi's own model/constant code, or an escaping exception); C side: strings accepted by parse_c_type "
-                "(all inputs of an enumeration are distinct by construction)",
+                "(all inputs of an enumeration are distinct by construction).  The families added after the audit round "
+                "are counted one by one in class_histogram as family:<name> (executed) and family:<name>:nontrivial "
+                "(same rule): agg_gap / agg_frame (#pragma, _Pragma, _Static_assert at every token gap of the corpus and "
+                "inside struct / union / enum / argument-list frames), magnitude (literals in four bases, every binary "
+                "operator and growing chains around 63/64 bits, the 1024-bit bound of the constant folder and the "
+                "4300-digit limit), expr_ops (every C operator over every literal spelling), spec_seq (specifier and "
+                "common-type keywords), xtok (%d further tokens at the slots of the corpus), nonascii, state (cdef() on "
+                "an FFI that already holds the same declarations, after a failed cdef(), with override / packed / pack); "
+                "compiled_shared / compiled_pair / compiled_api count typeof() calls on a compiled FFI that is not "
+                "fresh, cparse_strings:sym2 / :list the keyword alphabet and the edited standard names"
+                % len(_c30x.XTOKENS),
         "exhaustive": phases >= {"c", "real", "py"},
         "phases_run": sorted(phases),
         "python_side": {"token_alphabet": len(TOKENS), "typeof_sequence_maxlen": tmax,
                         "typeof_frame_maxlen": fmax, "cdef_frame_maxlen": 3, "cdef_frame_len3_alphabet": len(FRAME_TOKENS_QUICK) if quick else len(TOKENS), "sequence_cases": py_n,
-                        "corpus_cdefs": len(CORPUS), "corpus_tokens": ntok, "mutant_long_boundary_cases": nm},
+                        "corpus_cdefs": len(CORPUS), "corpus_tokens": ntok, "mutant_long_boundary_cases": nm,
+                        "added_families": {k[7:]: v for k, v in sorted(ctx.counts.items())
+                                           if k.startswith("family:")},
+                        "extra_tokens": len(_c30x.XTOKENS)},
         "c_side": {"alphabets": c_side_cov, "strings": c_eval, "parser_invocations": c_parses,
                    "sanitizer_reports": nrep, "fatal_signals": ncrash,
                    "realised_all_maxlen": rall, "realised_accepted_maxlen": accmax, "realised": nreal,
+                   "non_fresh_ffi": cov_seq,
                    "asan_backend": asan_note},
         "root_causes": [dict(sig=r["sig"], count=r["count"], min_input=r["min_input"], apis=sorted(r["apis"]),
                              families=sorted(r["families"])) for _, r in sorted(root.items())],
@@ -1059,11 +1544,36 @@ def run(ctx):
         "mirrors the out-of-line module used for realisation; every realised string checks their agreement"])
 
 
+def replay_list(exe, detail):
+    """One explicit string through the stand-alone harness."""
+    import tempfile
+    b = detail["string"]
+    b = b if isinstance(b, bytes) else b.encode("latin-1")
+    print("parse_c_type(%r) in the ASan/UBSan harness:" % b)
+    sys.stdout.flush()
+    d = tempfile.mkdtemp(prefix="c30r-", dir=build.scratch())
+    write_list_file(os.path.join(d, "in"), [b])
+    env = dict(os.environ)
+    env.update(HARNESS_ENV)
+    env.pop("LD_PRELOAD", None)
+    p = subprocess.run([exe, "4", "0", "0", "1", os.path.join(d, "st"), os.path.join(d, "acc"),
+                        "list:" + os.path.join(d, "in")], env=env, stdout=subprocess.PIPE, stderr=subprocess.PIPE)
+    reps = parse_san_reports(p.stderr.decode("latin-1"))
+    st = read_stats(os.path.join(d, "st"))
+    for rp in reps:
+        print("  sanitizer: %s %s in %s (%s)" % (rp["tool"], rp["error"], rp["func"], rp["line"]))
+    print("  rc=%d, harness contract violations=%d" % (p.returncode, st.nviol))
+    return 1 if (reps or st.nviol or p.returncode != 0) else 0
+
+
 def replay(detail):
     side = detail.get("side")
     if side == "py":
         st = _py_init()
-        r = run_py_case(detail["api"], detail["text"], st)
+        plan = detail.get("plan") or None
+        r = run_py_case(detail["api"], detail["text"], st, plan)
+        if plan:
+            print("on an FFI prepared by %r, options %r:" % (plan.get("pre"), plan.get("opts")))
         print("%s(%r) -> %s %s site=%s raised_in=%s" % (detail["api"], detail["text"], r[0], r[1], r[2], r[3]))
         return 1 if r[0] == "escape" else 0
     if side == "compiled":
@@ -1080,6 +1590,22 @@ def replay(detail):
             print("  -> process killed by signal %d" % os.WTERMSIG(status))
             return 1
         return 1 if os.WEXITSTATUS(status) == 7 else 0
+    if side == "compiled_seq":
+        kind = detail["kind"]
+        calls = detail.get("calls") or seq_calls(kind, detail["strings"])
+        print("%d typeof() calls on one %s FFI, the last one %r:" % (len(calls), kind, calls[-1]))
+        sys.stdout.flush()
+        pid = os.fork()
+        if pid == 0:
+            res = run_calls(kind, calls)
+            esc = [(s_, r_[1]) for s_, r_ in zip(calls, res) if r_[0] == "escape"]
+            os.write(1, ("  -> %s\n" % (esc[-1:] or res[-1:],)).encode())
+            os._exit(7 if res and res[-1][0] == "escape" else 0)
+        _, status = os.waitpid(pid, 0)
+        if os.WIFSIGNALED(status):
+            print("  -> process killed by signal %d" % os.WTERMSIG(status))
+            return 1
+        return 1 if os.WEXITSTATUS(status) == 7 else 0
     if side == "compiled_asan":
         print("string %r under the asan backend: re-run with the thorough tier" % detail["string"])
         return 1
@@ -1087,6 +1613,8 @@ def replay(detail):
         exe = build_harness()
         seq = list(detail["seq"])
         mode = detail.get("mode", "sym")
+        if mode == "list":
+            return replay_list(exe, detail)
         NS = len(MODES[mode])
         print("parse_c_type(%r) in the ASan/UBSan harness:" % seq_bytes(seq, mode))
         sys.stdout.flush()
